@@ -93,6 +93,7 @@ class Tokenizer:
     ]
     URISCHEME = "ABCDEFGHIJKLMNOPQRSTUVWXYZabcdefghijklmnopqrstuvwxyz0123456789+.-"
     MAX_DEPTH = 100
+    MAX_BRACES = 255
     regex = re.compile(r"([{}\[\]<>|=&'#*;:/\\\"\-!\n])", flags=re.IGNORECASE)
     tag_splitter = re.compile(r"([\s\"\'\\]+)")
 
@@ -275,7 +276,7 @@ class Tokenizer:
         """Parse a template or argument at the head of the wikicode string."""
         self._head += 2
         braces = 2
-        while self._read() == "{":
+        while self._read() == "{" and braces < self.MAX_BRACES:
             self._head += 1
             braces += 1
         has_content = False
